@@ -1244,3 +1244,12 @@ M("c06-stream-helper-ignores-type", "C06", "_component.py", "C06.R3", "the extra
 M("c06-stream-helper-bounded", "C06", "_component.py", ["C06.R2", "C06.R3", "C06.R7"], "the extracted stream helper uses the default (bounded) queue",
   ("            is_match, max_queue_size=_UNBOUNDED_QUEUE_SIZE\n", "            is_match\n"),
   base="NN7-y2", control=False)
+M("c17-accumulator-worker-no-copy", "C17", "_utils.py", ["C17.R1", "C17.R2", "C17.R3"], "the in-place worker recurses into the original's nested dict instead of a copy of it",
+  ("            nested = _copy_config(current)\n", "            nested = current\n"),
+  base="PP1-z3", control=False)
+M("c15-merged-handler-quiet-errors", "C15", "_runner.py", "C15.R2", "the merged startup handler skips the log line for every ordinary exception",
+  ("                    if not isinstance(exc, (get_cancelled_exc_class(), TimeoutError)):\n", "                    if not isinstance(exc, Exception):\n"),
+  base="PP8-z3", control=False)
+M("c04-inherited-state-keeps-generated", "C04", "_context.py", "C04.R2", "the `_collect_inherited_state` helper hands generated resources down",
+  ("            key: res for key, res in parent._resources.items() if not res.is_generated\n", "            key: res for key, res in parent._resources.items()\n"),
+  base="PP3-z2", control=False)
